@@ -655,6 +655,34 @@ def register(M):
     def _field(interp, args, kw, node):
         return FieldSpec(default=kw.get('default'), factory=kw.get('default_factory'))
 
+    @ext('dataclasses.replace')
+    def _dc_replace(interp, args, kw, node):
+        # stdlib fact: replace(obj, **changes) builds a new instance through the class (so __post_init__ runs), fields not named keep their value
+        obj = args[0]
+        if not isinstance(obj, Instance) or obj.cls.record_fields is None or getattr(obj.cls, 'is_namedtuple', False):
+            raise AnalysisError('dataclasses.replace on something that is not an instance of a repository dataclass', node)
+        names = [n for n, _ in obj.cls.record_fields]
+        for k in kw:
+            if k not in names:
+                raise AbsRaise(ExcVal('TypeError', (f"__init__() got an unexpected keyword argument '{k}'",)), node)
+        vals = {n: obj.attrs[n] for n in names if n in obj.attrs}
+        vals.update(kw)
+        return interp.instantiate(obj.cls, [], vals, node)
+
+    @ext('dataclasses.asdict')
+    def _dc_asdict(interp, args, kw, node):
+        obj = args[0]
+        if not isinstance(obj, Instance) or obj.cls.record_fields is None:
+            raise AnalysisError('dataclasses.asdict on something that is not an instance of a repository dataclass', node)
+        for n, _ in obj.cls.record_fields:
+            if isinstance(obj.attrs.get(n), (Instance, list, dict, tuple)):
+                raise AnalysisError('dataclasses.asdict with nested containers (deep copy) not modelled', node)
+        return {n: obj.attrs[n] for n, _ in obj.cls.record_fields}
+
+    @ext('dataclasses.fields')
+    def _dc_fields(interp, args, kw, node):
+        raise AnalysisError('dataclasses.fields not modelled', node)
+
     @ext('inspect.signature')
     def _signature(interp, args, kw, node):
         f = args[0]
